@@ -83,7 +83,7 @@ def build(rnd, k):
     defs = []
     pairs = []
     for j in range(n_def):
-        np_ = rnd.choice([0, 1, 2, 3, 4, 5, 10, rnd.randint(0, 10)])
+        np_ = rnd.choice([0, 1, 2, 3, 4, 5, 10, rnd.randint(0, 10)]) if rnd.random() < 0.95 else rnd.choice([15, 16, 17, 31, 32, 33, 64, 100])  # occasionally very wide
         ps = [rnd.choice(TYPES) for _ in range(np_)]
         res = rnd.choice([I32, I64, F32, F64, None]) if rnd.random() < 0.9 else None
         defs.append((tuple(ps), res))
